@@ -258,7 +258,7 @@ func genTrivia(r *Rng, must bool) string {
 		case 1:
 			b.WriteString("\t")
 		case 2:
-			b.WriteString(pick(r, []string{" /* c; { \" */ ", " /**/", " /*/ x ; */ ", " /*** } ***/", " /* // */ ", " /* * / */", " /*\n multi\n line */"}))
+			b.WriteString(pick(r, []string{" /* c; { \" */ ", " /**/", " /*/ x ; */ ", " /*** } ***/", " /* // */ ", " /* * / */", " /*\n multi\n line */", " /* é */ ", " /*日本語*/", " /* €€ */"}))
 		case 3:
 			b.WriteString(pick(r, []string{" // line ; } comment\n", " //\n", " /// /* x\n", " // */ \r\n"}))
 		case 4:
